@@ -13,6 +13,7 @@ tree into a scratch directory and applies ONLY these edits, each a must-fire rul
                         <function>__<name>  (scope only; lifetime and initialiser unchanged).
   R4 variadic calls   : sprintf/sscanf with a literal format become fixed-arity model calls
                         vf_sprintf_<mangled format>(dst, args...) / vf_sscanf_<mangled>(src, args...).
+  R5 struct memcpy    : memcpy(d, s, sizeof(cJSON)) becomes vf_memcpy_cjson(d, s, sizeof(cJSON)) (exact 64-byte copy model).
 Nothing is dropped.
 """
 import os, re, sys, shutil
@@ -239,6 +240,28 @@ KNOWN_FORMATS = {
     "sscanf": ['"%lg"'],
 }
 
+def rewrite_struct_memcpy(src, fname, report):
+    """R5: memcpy(dst, src, sizeof(cJSON)) -> vf_memcpy_cjson(dst, src, sizeof(cJSON)): the struct-copy model is exact, the
+    general memcpy model is only exact at the ghost indices"""
+    toks = code_tokens(lex(src))
+    edits = []
+    for idx, (k, t, s, e) in enumerate(toks):
+        if k == "id" and t == "memcpy" and toks[idx + 1][1] == "(":
+            d = 0; j = idx + 1
+            while True:
+                if toks[j][1] == "(": d += 1
+                elif toks[j][1] == ")":
+                    d -= 1
+                    if d == 0: break
+                j += 1
+            args = split_args(src[toks[idx + 1][3]:toks[j][2]])
+            if len(args) == 3 and args[2].replace(" ", "") == "sizeof(cJSON)":
+                edits.append((s, e, "vf_memcpy_cjson"))
+                report.append("R5 %s: memcpy(%s) -> vf_memcpy_cjson" % (fname, ", ".join(args)))
+    for s_, e_, new in sorted(edits, reverse=True):
+        src = src[:s_] + new + src[e_:]
+    return src
+
 def rewrite_variadic(src, fname, report):
     toks = lex(src)
     edits = []
@@ -359,6 +382,7 @@ def annotate(repo, scratch, loops_tbl, apply_loops=True):
             src = insert_loop_contracts(src, f, table, report) if apply_loops else src
             src = hoist_statics(src, f, report)
             src = rewrite_variadic(src, f, report)
+            src = rewrite_struct_memcpy(src, f, report)
         open(os.path.join(scratch, f), "w").write(src)
     return report
 
